@@ -15,6 +15,7 @@ RULE = ("Formula ASTs: species = element symbol (118) with optional {A}, {A+-q},
         "(element, isotope, charge); per-species Z, N=A-Z, e=Z+q, mass=M_A+q*m_e (natural: abundance-weighted mean; "
         "most-abundant: arg-max abundance) read from PT_DATA and the unit tables; 'sum' row = count-weighted sums. "
         "Non-trivial: a group with multiplier followed by another item, or nesting >= 2, or a charged/isotopic species "
+        "Round 4: augmented += and *=, a zero multiple inside a sum, in-place add() on results. "
         "with count > 1. Distinct = distinct case JSON.")
 ASSUMPTIONS = [
     "elements whose isotopes all have zero natural abundance are used only with an explicit isotope",
